@@ -90,9 +90,42 @@ def check(rep):
                     k, ' ; '.join(h.split(' ; ')[:k + 2])[-400:], ea[k][:300] if k < len(ea) else '', eb[k][:300] if k < len(eb) else '')))
                 break
             rep.cov['traces_validated_against_impl'] = ok
+            if any(k == 'correspondence' for k, _ in ctx.broken) and not rep.violations:
+                support = framing_search(ctx, allh, allg)
+                if support:
+                    ctx.broken = [(k, (t + ' || supporting history (zlib replaced by the checksum-less framing codec of the history harness; the code as it is now '
+                                   'hands a buffer to uncompress() that is not a packet, where the model of the unchanged code does not; with the real zlib the '
+                                   'Adler-32 check may still reject it): ' + support) if k == 'correspondence' else t) for k, t in ctx.broken]
     if not rep.violations:
         ctx.report_broken()
     return rep
+
+
+def framing_search(ctx, allh, allg):
+    """search aid when the correspondence is broken: a schedule on which the implementation (framing codec, no checksum) writes a packet to a tun
+    device that was never offered while the extracted model on the same schedule does not"""
+    try:
+        os.environ['VERIF_FULL'] = '1'
+        rc, implf, err = vlib.parallel_run_cases(ctx.exe['sys'], allh, ctx.work, 'framing-impl')
+        hits = []
+        for h, g, o in zip(allh, allg, implf):
+            i, why, ns, nc = oracle(h, g, o)
+            if why:
+                hits.append((h, i, why))
+            if len(hits) >= 8:
+                break
+        for h, i, why in hits:
+            cp = os.path.join(ctx.work, 'framing-model.cases')
+            open(cp, 'w').write(h + '\n')
+            rc, mod, err = vlib.run_cases(ctx.model, cp)
+            if mod:
+                j, mwhy, _, _ = oracle(h, None, mod[0])
+                if not mwhy:
+                    evs = h.split(' ; ')
+                    return '%s -- history: %s' % (why, ' ; '.join(evs[:i + 2])[:20000])
+        return None
+    finally:
+        os.environ.pop('VERIF_FULL', None)
 
 
 def replay(rp):
